@@ -385,3 +385,32 @@ func Verif_C07_ClusterSnapshotCompletes() {
 	}
 	vr.Reach("end")
 }
+
+// Verif_C07_MultiKeyWriteUnderMemoryLimit: a multi-key write applied by every node under a memory
+// limit (noeviction) has the same effect on every node, whatever order each node's map iteration
+// takes: all of it or none of it, never a node-dependent subset.
+func Verif_C07_MultiKeyWriteUnderMemoryLimit() {
+	vr.MapOrderND(true)
+	nodes := c07Cluster(2, false)
+	defer c07Shutdown(nodes)
+	max := vr.Int64("max")
+	used := vr.Int64("used")
+	vr.Assume(max >= 1 && max <= 4096 && used >= 0 && used <= 4096)
+	for _, n := range nodes {
+		n.config.MaxMemory = uint64(max)
+		n.memUsed = used
+	}
+	dbs := []int{0}
+	r := c07Run(nodes[0], []string{"MSET", "k1", "v1", "k2", "v2"})
+	c07Settle(nodes, dbs, "k1", "k2")
+	lv := c07View(nodes[0], dbs, "k1", "k2")
+	vr.Assert(c07View(nodes[1], dbs, "k1", "k2") == lv, "C07.multikey_under_limit.same_dataset_on_every_node")
+	none := "0/k1=<absent>;0/k2=<absent>;"
+	all := "0/k1=s:v1;0/k2=s:v2;"
+	if strings.HasPrefix(r, "ERR ") {
+		vr.Assert(lv == none, "C07.multikey_under_limit.error_reply_means_nothing_written")
+	} else {
+		vr.Assert(lv == all, "C07.multikey_under_limit.ok_reply_means_all_written")
+	}
+	vr.Reach("end")
+}
